@@ -1102,6 +1102,189 @@ def part_b_nan(ctx, T, pairs, only=None):
                 each_replica(ctx, fam, f"{what} [{policy}]", pb, db, tab, val, mk_out, rp)
 
 
+NAN_SEQ_PAIRS_QUICK = [((2,), (2,)), ((3,), ()), ((2, 1), (1, 3))]
+
+
+def part_b_nan_seq(ctx, T, pairs, only=None):
+    """Policy SEQUENCES on one batched exact GP: predict under policy p1 (fills the caches keyed by p1) -> while policy p2 is
+    active, `set_train_data(targets=new)` (same shape, new values, new per-element NaN patterns) -> predict under p1 again.
+    Every ordered pair (p1, p2).  Element b is judged against a replica built from scratch with the NEW targets."""
+    import torch
+    import gpytorch
+    Model = _exact_model_cls()
+    n, m = 5, 3
+    fam = "exact_gp_nan_seq"
+    nan = float("nan")
+    for pb, db in pairs:
+        tab = T.get(pb, db)
+        bs, pidx, didx = tab
+        E = len(pidx)
+        if E < 2:
+            continue
+        g = _gen(f"nanseq:{pb}:{db}")
+        tx, xs = _randn(g, *db, n, D_IN), _randn(g, *db, m, D_IN)
+
+        def targets(tag):
+            t = _randn(g, *bs, n).reshape(E, n)
+            pats = nan_patterns(f"nanseqpat:{tag}:{pb}:{db}", E, n)
+            tn = t.clone()
+            for e, pt in enumerate(pats):
+                if pt:
+                    tn[e, pt] = nan
+            return t, pats, tn.reshape(*bs, n)
+        _, _, ty1 = targets("old")
+        t2, pats2, ty2 = targets("new")
+        union2 = sorted(set().union(*[set(p_) for p_ in pats2]))
+
+        def predict(mdl, xs_, policy):
+            with torch.no_grad(), gpytorch.settings.fast_computations(False, False, False), \
+                    gpytorch.settings.max_cholesky_size(10000), gpytorch.settings.observation_nan_policy(policy), \
+                    warnings.catch_warnings():
+                warnings.simplefilter("ignore")
+                mdl.eval()
+                post = mdl(xs_)
+                return {"posterior mean": post.mean, "posterior covariance": post.covariance_matrix}
+        for p1 in POLICIES:
+            for p2 in POLICIES:
+                seq = f"{p1}>set_train_data(targets)@{p2}>{p1}"
+                if only is not None and seq != only:
+                    continue
+                rp = {"part": "nan_seq", "family": fam, "param_batch": list(pb), "data_batch": list(db), "sequence": seq,
+                      "round": _SALT[0]}
+                mod = Model(tx, ty1, make_lik(pb, False), pb).double()
+                randomize(mod, f"nanseqp:{pb}")
+                try:
+                    predict(mod, xs, p1)
+                    with gpytorch.settings.observation_nan_policy(p2):
+                        mod.set_train_data(targets=ty2)
+                    obs = predict(mod, xs, p1)
+                except Exception as e:
+                    raised(ctx, fam, pb, db, bs, e, rp, what=f"[{seq}]")
+                    continue
+                cache = {}
+
+                def rep_all(pf, df, e):
+                    t_e = t2[e].clone()
+                    miss = union2 if p1 == "mask" else pats2[e]
+                    if miss:
+                        t_e[miss] = nan
+                    r = Model(data_slice(tx, db, df, 2), t_e, make_lik((), False), ()).double()
+                    load_slice(mod, r, pb, pf)
+                    return predict(r, data_slice(xs, db, df, 2), p1)
+                for what, val in obs.items():
+                    ev = 1 if what == "posterior mean" else 2
+                    try:
+                        val = val.expand(torch.Size(tuple(bs) + tuple(val.shape[val.dim() - ev:])))
+                    except RuntimeError:
+                        pass
+                    holder = [0]
+
+                    def mk_out(pf, df, what=what, holder=holder):
+                        e = holder[0]
+                        holder[0] += 1
+                        if e not in cache:
+                            cache[e] = rep_all(pf, df, e)
+                        return cache[e][what]
+                    each_replica(ctx, fam, f"{what} [{seq}]", pb, db, tab, val, mk_out, rp)
+
+
+RELOAD_PAIRS_QUICK = [((3,), (3,)), ((3,), ()), ((2,), (2, 1)), ((2, 3), (3,))]
+
+
+def part_b_reload(ctx, T, pairs, only=None):
+    """Reload THROUGH THE PARENT in eval mode: a batched SVGP (ApproximateGP owning the variational strategy) and a batched
+    SGPR (ExactGP owning an InducingPointKernel): eval -> predict (fills the caches of the children) ->
+    `model.load_state_dict(other values)` -> predict again without `.train()`.  Element b is judged against the non-batched
+    replica rebuilt from slice b of the LOADED state."""
+    import torch
+    import gpytorch
+    Var = _var_model_cls()
+    n, m, mi = 5, 3, 3
+
+    class SGPR(gpytorch.models.ExactGP):
+        def __init__(self, tx, ty, lik, b, ind):
+            super().__init__(tx, ty, lik)
+            B = torch.Size(b)
+            self.mean_module = gpytorch.means.ConstantMean(batch_shape=B)
+            base = gpytorch.kernels.ScaleKernel(gpytorch.kernels.RBFKernel(batch_shape=B), batch_shape=B)
+            self.covar_module = gpytorch.kernels.InducingPointKernel(base, inducing_points=ind.clone(), likelihood=lik)
+
+        def forward(self, x):
+            return gpytorch.distributions.MultivariateNormal(self.mean_module(x), self.covar_module(x))
+    for kind in ("svgp", "sgpr"):
+        if only is not None and kind != only:
+            continue
+        fam = f"reload_{kind}"
+        for pb, db in pairs:
+            tab = T.get(pb, db)
+            bs, pidx, didx = tab
+            if kind == "sgpr" and tuple(pb) != tuple(bs):
+                continue           # the inducing-point kernel is built for the model's own batch shape
+            g = _gen(f"reload:{kind}:{pb}:{db}")
+            tx, xs = _randn(g, *db, n, D_IN), _randn(g, *db, m, D_IN)
+            ty = _randn(g, *bs, n)
+            ind = _randn(g, *pb, mi, D_IN)
+            npb = 1
+            for v in pb:
+                npb *= v
+
+            def build(b, ind_, tx_, ty_, label):
+                if kind == "svgp":
+                    mdl = Var(ind_.clone(), b).double()
+                    mdl.variational_strategy.variational_params_initialized.fill_(1)
+                else:
+                    mdl = SGPR(tx_, ty_, make_lik(b, False), b, ind_).double()
+                if label:
+                    randomize(mdl, label)
+                    if kind == "svgp":
+                        with torch.no_grad():
+                            cv = mdl.variational_strategy._variational_distribution.chol_variational_covar
+                            cv.copy_(torch.tril(cv) * 0.3 + torch.eye(mi, dtype=torch.float64))
+                return mdl
+
+            def predict(mdl, xs_):
+                with torch.no_grad(), gpytorch.settings.fast_computations(False, False, False), \
+                        gpytorch.settings.max_cholesky_size(10000), warnings.catch_warnings():
+                    warnings.simplefilter("ignore")
+                    mdl.eval()
+                    post = mdl(xs_)
+                    return {"posterior mean": post.mean, "posterior covariance": post.covariance_matrix}
+            rp = {"part": "reload", "family": fam, "kind": kind, "param_batch": list(pb), "data_batch": list(db), "round": _SALT[0]}
+            mod = build(pb, ind, tx, ty, f"reload0:{kind}:{pb}")
+            other = build(pb, ind, tx, ty, f"reload1:{kind}:{pb}")
+            try:
+                predict(mod, xs)
+                mod.load_state_dict(other.state_dict())
+                obs = predict(mod, xs)
+            except Exception as e:
+                raised(ctx, fam, pb, db, bs, e, rp, what="eval>predict>load_state_dict>predict")
+                continue
+            cache = {}
+
+            def rep_all(pf, df, e):
+                sd = mod.state_dict()
+                ind_b = (sd["variational_strategy.inducing_points"] if kind == "svgp"
+                         else sd["covar_module.inducing_points"]).reshape(npb, mi, D_IN)[pf]
+                r = build((), ind_b, data_slice(tx, db, df, 2), ty.reshape(len(pidx), n)[e], None)
+                load_slice(mod, r, pb, pf)
+                return predict(r, data_slice(xs, db, df, 2))
+            for what, val in obs.items():
+                ev = 1 if what == "posterior mean" else 2
+                try:
+                    val = val.expand(torch.Size(tuple(bs) + tuple(val.shape[val.dim() - ev:])))
+                except RuntimeError:
+                    pass
+                holder = [0]
+
+                def mk_out(pf, df, what=what, holder=holder):
+                    e = holder[0]
+                    holder[0] += 1
+                    if e not in cache:
+                        cache[e] = rep_all(pf, df, e)
+                    return cache[e][what]
+                each_replica(ctx, fam, f"{what} [eval>predict>load_state_dict>predict]", pb, db, tab, val, mk_out, rp)
+
+
 def OBJECTIVES():
     """every approximate objective class of gpytorch.mlls that applies to a (batched) ApproximateGP with a Gaussian
     likelihood; name -> (likelihood, model, num_data) -> callable(q(f), y) -> tensor with the batch shape (+ trailing dims)"""
@@ -1330,7 +1513,7 @@ def part_b_model_list(ctx, lines, recs, only=None):
                              f"member's posterior: {err(o.covariance_matrix, w.covariance_matrix)}", dict(rp, member=i, mode="eval"))
 
 
-HIST_UPDATES = ("targets", "inputs", "inputs+targets", "resize", "load_state_dict")
+HIST_UPDATES = ("targets", "inputs", "inputs+targets", "resize", "load_state_dict", "parent_load_state_dict")
 HIST_PRE = ("all", "props", "train", "eval", "none")
 
 
@@ -1341,6 +1524,8 @@ def hist_configs(ctx_quick, rng):
         for mb in ((), (2,)) if ctx_quick else ((), (2,), (2, 3)):
             for upd in HIST_UPDATES:
                 pres = (("all", rng.choice(HIST_PRE[1:])) if k == 2 else (rng.choice(HIST_PRE),)) if ctx_quick else HIST_PRE
+                if ctx_quick and upd == "parent_load_state_dict":
+                    pres = ("all", "eval") if k == 2 else ("eval",)      # the reload must follow an eval-mode prediction
                 for pre in pres:
                     out.append((k, mb, upd, rng.randrange(k), pre))
     return out
@@ -1422,7 +1607,15 @@ def part_b_model_list_hist(ctx, lines, recs, configs, only=None):
                     mem = models[j]
                     pos = len(events)
                     newcode = j * 1000 + pos + 1
-                    if upd == "load_state_dict":
+                    if upd == "parent_load_state_dict":
+                        # reload THROUGH THE PARENT: every member gets other hyperparameters by `model_list.load_state_dict`
+                        others = []
+                        for i_, mdl in enumerate(models):
+                            o_ = Model(mdl.train_inputs[0], mdl.train_targets, make_lik(mb, False), mb).double()
+                            randomize(o_, f"mlhpo:{cfg}:{i_}")
+                            others.append(o_)
+                        ml.load_state_dict(gpytorch.models.IndependentModelList(*others).state_dict())
+                    elif upd == "load_state_dict":
                         other = Model(mem.train_inputs[0], mem.train_targets, make_lik(mb, False), mb).double()
                         randomize(other, f"mlho:{cfg}")
                         mem.load_state_dict(other.state_dict())
@@ -1581,9 +1774,12 @@ def correspondence(ctx, want_driver=True):
         if ctx.quick:
             sel = {"kernels": pairs_cover(rng, 6), "means": P, "liks": pairs_cover(rng, 20),
                    "exact": pairs_cover(rng, 4), "var": pairs_cover(rng, 0), "mixed": None,
-                   "nan": NAN_PAIRS_QUICK + rng.sample([x for x in P if x not in NAN_PAIRS_QUICK], 3)}
+                   "nan": NAN_PAIRS_QUICK + rng.sample([x for x in P if x not in NAN_PAIRS_QUICK], 3),
+                   "nanseq": NAN_SEQ_PAIRS_QUICK + rng.sample([x for x in P if x not in NAN_SEQ_PAIRS_QUICK], 1),
+                   "reload": RELOAD_PAIRS_QUICK + rng.sample([x for x in P if x not in RELOAD_PAIRS_QUICK], 2)}
         else:
-            sel = {k: P for k in ("kernels", "means", "liks", "exact", "var", "nan")}
+            sel = {k: P for k in ("kernels", "means", "liks", "exact", "var", "nan", "reload")}
+            sel["nanseq"] = [x for i, x in enumerate(P) if i % 3 == 0] + NAN_SEQ_PAIRS_QUICK
             sel["mixed"] = None
         ctx.notes["pairs_total"] = len(P)
         ctx.notes["pairs_used"] = {k: len(v) for k, v in sel.items() if v is not None}
@@ -1604,8 +1800,9 @@ def correspondence(ctx, want_driver=True):
                 import traceback
                 ctx.broke("correspondence", "part_b_kernels (k == n) crashed", traceback.format_exc())
             for part, key in ((part_b_kernels, "kernels"), (part_b_means, "means"), (part_b_likelihoods, "liks"),
-                              (part_b_exact, "exact"), (part_b_mixed, "mixed"), (part_b_variational, "var"), (part_b_nan, "nan")):
-                if key == "nan" and rnd >= 1:
+                              (part_b_exact, "exact"), (part_b_mixed, "mixed"), (part_b_variational, "var"), (part_b_nan, "nan"), (part_b_nan_seq, "nanseq"),
+                              (part_b_reload, "reload")):
+                if key in ("nan", "nanseq", "reload") and rnd >= 1:
                     continue           # one value round of the NaN-policy cells (thorough: all pairs with >= 2 batch elements)
                 try:
                     part(ctx, T, sel[key])
@@ -1670,6 +1867,8 @@ def search(ctx, broken):
         part_b_exact(ctx, T, pairs_cover(rng, 4))
         part_b_variational(ctx, T, pairs_cover(rng, 0))
         part_b_nan(ctx, T, NAN_PAIRS_QUICK)
+        part_b_nan_seq(ctx, T, NAN_SEQ_PAIRS_QUICK)
+        part_b_reload(ctx, T, RELOAD_PAIRS_QUICK)
         lines, recs = [], []
         part_b_model_list(ctx, lines, recs)
         part_b_model_list_hist(ctx, lines, recs, hist_configs(True, ctx.rng("hist")))
@@ -1727,6 +1926,13 @@ def replay(ctx, payload):
             lines, recs = [], []
             part_b_model_list_hist(sub, lines, recs, [tuple([c["config"][0], tuple(c["config"][1])] + c["config"][2:])], only=c["config"])
             compare_mirror(sub, lines, recs)
+            return not sub.failures
+        if c.get("part") in ("nan_seq", "reload"):
+            pb, db = tuple(c["param_batch"]), tuple(c["data_batch"])
+            if c["part"] == "nan_seq":
+                part_b_nan_seq(sub, Tables([(pb, db)]), [(pb, db)], only=c["sequence"])
+            else:
+                part_b_reload(sub, Tables([(pb, db)]), [(pb, db)], only=c["kind"])
             return not sub.failures
         if c.get("part") == "nan":
             pb, db = tuple(c["param_batch"]), tuple(c["data_batch"])
